@@ -103,6 +103,19 @@ func genC15(t *rapid.T) CaseC15 {
 		g := VGen{Keys: []string{"a", "b", "k", "list", "", "-a", "#text", "a.b", "x[0]", "*"}, Nulls: true, StringGen: func(t *rapid.T, l string) string { return rapid.SampledFrom(scalarStrings).Draw(t, l) }}
 		c.Map = g.Map(t, 3)
 		c.Path, c.Sub, c.Pair, c.NewVal = genArgString(t, "path"), genArgString(t, "sub"), genArgString(t, "pair"), genArgString(t, "newval")
+		if rapid.IntRange(0, 5).Draw(t, "empties") == 0 {
+			// empty containers where a walker expects members: an empty list in a list, an empty map in a list, null members
+			hostile := []interface{}{
+				[]interface{}{[]interface{}{}}, []interface{}{[]interface{}{}, []interface{}{1.0}}, []interface{}{map[string]interface{}{}},
+				[]interface{}{nil}, []interface{}{}, map[string]interface{}{}, []interface{}{[]interface{}{[]interface{}{}}}, []interface{}{map[string]interface{}{"b": []interface{}{}}},
+				[]interface{}{nil, map[string]interface{}{"b": nil}}, nil,
+			}
+			for _, k := range []string{"a", "b", "list"} {
+				if rapid.Bool().Draw(t, "hk") {
+					c.Map[k] = deepCopy(hostile[rapid.IntRange(0, len(hostile)-1).Draw(t, "hv")])
+				}
+			}
+		}
 		if rapid.IntRange(0, 7).Draw(t, "widemap") == 0 {
 			// a Map whose results outgrow the initial result capacity several times over, addressed by a path that matches
 			var st []Step
